@@ -75,47 +75,24 @@ pub(crate) mod verif_string {
     // =====================================================================================
     // C16: substr for ALL i64 start / length over an ABSTRACT string of L <= 3 characters.
     // std's `Chars` is replaced by a contract stub that behaves as the character iterator of a string whose
-    // i-th character is ('a' + i) and which has L characters (L symbolic): `next` yields them in order,
+    // i-th character is abstract_char(i) and which has L characters (L symbolic): `next` yields them in order,
     // `count` is the number left. The adapters Skip / Take / collect and String::from_iter are the REAL std
     // code running on top of it, so the output string is the real output for such a string. The concrete
     // String operand has a different BYTE length (it is "\u{e4}\u{e4}\u{e4}\u{e4}\u{e4}": 5 chars, 10 bytes), so
     // a body that measures bytes, or the real string, disagrees with L.
     // Assumed contract (trusted): the real `Chars` of a string with these characters behaves like the stub.
     // =====================================================================================
-    pub(crate) static mut CH_L: usize = 0;
-    pub(crate) static mut CH_POS: usize = 0;
-    pub(crate) static mut CH_COUNT_CALLS: u32 = 0;
-    /// carrier for the stubs: a method of an `impl<'a>` has the same (early-bound) lifetime parameter as
-    /// `impl<'a> Iterator for Chars<'a>`, which Kani requires of a stub
-    pub(crate) struct CharsContract<'a>(std::marker::PhantomData<&'a ()>);
-    impl<'a> CharsContract<'a> {
-        pub(crate) fn next(_c: &mut std::str::Chars<'a>) -> Option<char> {
-            unsafe {
-                if CH_POS < CH_L {
-                    CH_POS += 1;
-                    Some((b'a' + (CH_POS - 1) as u8) as char)
-                } else {
-                    None
-                }
-            }
-        }
-        pub(crate) fn advance_by(_c: &mut std::str::Chars<'a>, n: usize) -> Result<(), std::num::NonZero<usize>> {
-            unsafe {
-                let left = CH_L - CH_POS;
-                if n <= left {
-                    CH_POS += n;
-                    Ok(())
-                } else {
-                    CH_POS = CH_L;
-                    Err(std::num::NonZero::new(n - left).unwrap())
-                }
-            }
-        }
-        pub(crate) fn count(_c: std::str::Chars<'a>) -> usize {
-            unsafe {
-                CH_COUNT_CALLS += 1;
-                CH_L - CH_POS
-            }
+    use crate::verif_support::chars_contract::{abstract_char, CharsContract, CH_COUNT_CALLS, CH_L, CH_POS};
+
+    /// `String::push` by contract: appends the character - recorded here instead of UTF-8-encoding a symbolic
+    /// character into a heap buffer (which is what made multi-byte abstract characters intractable)
+    pub(crate) static mut PUSHED: [char; 8] = ['\0'; 8];
+    pub(crate) static mut PUSHED_N: usize = 0;
+    pub(crate) fn string_push_stub(_s: &mut String, ch: char) {
+        unsafe {
+            assert!(PUSHED_N < 8, "more characters produced than the abstract string has");
+            PUSHED[PUSHED_N] = ch;
+            PUSHED_N += 1;
         }
     }
 
@@ -128,10 +105,8 @@ pub(crate) mod verif_string {
 
     /// `quad`: 0 = all i64; 1..4 = sign quadrant of (start, length): 1 (+,+) 2 (+,-) 3 (-,+) 4 (-,-)
     pub(crate) fn body_substr_abstract(has_len: bool, l: usize, quad: u8) {
-        unsafe {
-            CH_L = l;
-            CH_POS = 0;
-        }
+        crate::verif_support::chars_contract::reset(l);
+        unsafe { PUSHED_N = 0 };
         let start: i64 = kani::any();
         let len: i64 = kani::any();
         match quad {
@@ -156,11 +131,12 @@ pub(crate) mod verif_string {
         // the characters are counted once (by contract) and the position is reset for the slice itself
         let (s, e) = spec_substr_range(l, start, if has_len { Some(len) } else { None });
         match &*r {
-            Ok(Value::String(out)) => {
-                assert!(out.len() == e - s, "substr: wrong number of characters (start skips / counts from the end, length takes / stops before the end, clamped to the string, all measured in characters)");
+            Ok(Value::String(_out)) => {
+                // the produced text is what was pushed, in order (String::push by contract)
+                assert!(unsafe { PUSHED_N } == e - s, "substr: wrong number of characters (start skips / counts from the end, length takes / stops before the end, clamped to the string; all measured in characters, not bytes or UTF-16 units)");
                 let mut k = 0;
                 while k < e - s {
-                    assert!(out.as_bytes()[k] == b'a' + (s + k) as u8, "substr: wrong characters selected");
+                    assert!(unsafe { PUSHED[k] } == abstract_char(s + k), "substr: wrong characters selected");
                     k += 1;
                 }
             }
@@ -170,11 +146,12 @@ pub(crate) mod verif_string {
     macro_rules! substr_abstract_harness {
         ($name:ident, $has_len:expr, $l:expr, $quad:expr) => {
             #[cfg_attr(kani, kani::proof)]
-            #[cfg_attr(kani, kani::unwind(6))]
+            #[cfg_attr(kani, kani::unwind(12))]
             #[cfg_attr(kani, kani::stub(<std::str::Chars<'_> as std::iter::Iterator>::next, CharsContract::next))]
             #[cfg_attr(kani, kani::stub(<std::str::Chars<'_> as std::iter::Iterator>::count, CharsContract::count))]
             #[cfg_attr(kani, kani::stub(<std::str::Chars<'_> as std::iter::Iterator>::advance_by, CharsContract::advance_by))]
             #[cfg_attr(kani, kani::stub(std::string::String::reserve, string_reserve_stub))]
+            #[cfg_attr(kani, kani::stub(std::string::String::push, string_push_stub))]
             #[cfg_attr(kani, kani::stub(std::fmt::format, crate::verif_support::fmt_stub))]
             pub(crate) fn $name() {
                 body_substr_abstract($has_len, $l, $quad);
@@ -182,57 +159,30 @@ pub(crate) mod verif_string {
         };
     }
 //@GENERATED-SUBSTR
-    //@ob name=C16.substr.abstract.2.len0.all harness=k_c16_substr_abstract_2_len0_all props=C16,C01 tier=quick strength=bounded bound="a string of 0 characters (abstract: Chars by contract, real Skip/Take/collect); start: EVERY i64 (all 64-bit values of that sign)" fns=op::string::substr stubs=5 timeout=600 group=heavy
+    //@ob name=C16.substr.abstract.2.len0.all harness=k_c16_substr_abstract_2_len0_all props=C16,C01 tier=quick strength=bounded bound="a string of 0 characters (abstract: Chars by contract, real Skip/Take/collect); start: EVERY i64 (all 64-bit values of that sign)" fns=op::string::substr stubs=6 timeout=600 group=heavy
     //@ desc="substr on a 0-character string, for every 64-bit start in the stated sign class: the result is exactly the characters the statement describes (skip / count from the end; take / stop before the end; clamped), counted in characters, never bytes"
     substr_abstract_harness!(k_c16_substr_abstract_2_len0_all, false, 0, 0);
-    //@ob name=C16.substr.abstract.2.len1.all harness=k_c16_substr_abstract_2_len1_all props=C16,C01 tier=thorough strength=bounded bound="a string of 1 characters (abstract: Chars by contract, real Skip/Take/collect); start: EVERY i64 (all 64-bit values of that sign)" fns=op::string::substr stubs=5 timeout=600 group=heavy
+    //@ob name=C16.substr.abstract.2.len1.all harness=k_c16_substr_abstract_2_len1_all props=C16,C01 tier=quick strength=bounded bound="a string of 1 characters (abstract: Chars by contract, real Skip/Take/collect); start: EVERY i64 (all 64-bit values of that sign)" fns=op::string::substr stubs=6 timeout=600 group=heavy
     //@ desc="substr on a 1-character string, for every 64-bit start in the stated sign class: the result is exactly the characters the statement describes (skip / count from the end; take / stop before the end; clamped), counted in characters, never bytes"
     substr_abstract_harness!(k_c16_substr_abstract_2_len1_all, false, 1, 0);
-    //@ob name=C16.substr.abstract.2.len2.all harness=k_c16_substr_abstract_2_len2_all props=C16,C01 tier=quick strength=bounded bound="a string of 2 characters (abstract: Chars by contract, real Skip/Take/collect); start: EVERY i64 (all 64-bit values of that sign)" fns=op::string::substr stubs=5 timeout=600 group=heavy
+    //@ob name=C16.substr.abstract.2.len2.all harness=k_c16_substr_abstract_2_len2_all props=C16,C01 tier=quick strength=bounded bound="a string of 2 characters (abstract: Chars by contract, real Skip/Take/collect); start: EVERY i64 (all 64-bit values of that sign)" fns=op::string::substr stubs=6 timeout=600 group=heavy
     //@ desc="substr on a 2-character string, for every 64-bit start in the stated sign class: the result is exactly the characters the statement describes (skip / count from the end; take / stop before the end; clamped), counted in characters, never bytes"
     substr_abstract_harness!(k_c16_substr_abstract_2_len2_all, false, 2, 0);
-    //@ob name=C16.substr.abstract.2.len3.all harness=k_c16_substr_abstract_2_len3_all props=C16,C01 tier=off strength=bounded bound="a string of 3 characters (abstract: Chars by contract, real Skip/Take/collect); start: EVERY i64 (all 64-bit values of that sign)" fns=op::string::substr stubs=5 timeout=600 group=heavy
+    //@ob name=C16.substr.abstract.2.len3.all harness=k_c16_substr_abstract_2_len3_all props=C16,C01 tier=quick strength=bounded bound="a string of 3 characters (abstract: Chars by contract, real Skip/Take/collect); start: EVERY i64 (all 64-bit values of that sign)" fns=op::string::substr stubs=6 timeout=600 group=heavy
     //@ desc="substr on a 3-character string, for every 64-bit start in the stated sign class: the result is exactly the characters the statement describes (skip / count from the end; take / stop before the end; clamped), counted in characters, never bytes"
     substr_abstract_harness!(k_c16_substr_abstract_2_len3_all, false, 3, 0);
-    //@ob name=C16.substr.abstract.3.len0.all harness=k_c16_substr_abstract_3_len0_all props=C16,C01 tier=quick strength=bounded bound="a string of 0 characters (abstract: Chars by contract, real Skip/Take/collect); start/length: EVERY i64 (all 64-bit values of that sign)" fns=op::string::substr stubs=5 timeout=600 group=heavy
+    //@ob name=C16.substr.abstract.3.len0.all harness=k_c16_substr_abstract_3_len0_all props=C16,C01 tier=quick strength=bounded bound="a string of 0 characters (abstract: Chars by contract, real Skip/Take/collect); start/length: EVERY i64 (all 64-bit values of that sign)" fns=op::string::substr stubs=6 timeout=600 group=heavy
     //@ desc="substr on a 0-character string, for every 64-bit start and length in the stated sign class: the result is exactly the characters the statement describes (skip / count from the end; take / stop before the end; clamped), counted in characters, never bytes"
     substr_abstract_harness!(k_c16_substr_abstract_3_len0_all, true, 0, 0);
-    //@ob name=C16.substr.abstract.3.len1.pp harness=k_c16_substr_abstract_3_len1_pp props=C16,C01 tier=thorough strength=bounded bound="a string of 1 characters (abstract: Chars by contract, real Skip/Take/collect); start/length: start >= 0, length >= 0 (all 64-bit values of that sign)" fns=op::string::substr stubs=5 timeout=600 group=heavy
+    //@ob name=C16.substr.abstract.3.len1.all harness=k_c16_substr_abstract_3_len1_all props=C16,C01 tier=quick strength=bounded bound="a string of 1 characters (abstract: Chars by contract, real Skip/Take/collect); start/length: EVERY i64 (all 64-bit values of that sign)" fns=op::string::substr stubs=6 timeout=600 group=heavy
     //@ desc="substr on a 1-character string, for every 64-bit start and length in the stated sign class: the result is exactly the characters the statement describes (skip / count from the end; take / stop before the end; clamped), counted in characters, never bytes"
-    substr_abstract_harness!(k_c16_substr_abstract_3_len1_pp, true, 1, 1);
-    //@ob name=C16.substr.abstract.3.len1.pn harness=k_c16_substr_abstract_3_len1_pn props=C16,C01 tier=thorough strength=bounded bound="a string of 1 characters (abstract: Chars by contract, real Skip/Take/collect); start/length: start >= 0, length < 0 (all 64-bit values of that sign)" fns=op::string::substr stubs=5 timeout=600 group=heavy
-    //@ desc="substr on a 1-character string, for every 64-bit start and length in the stated sign class: the result is exactly the characters the statement describes (skip / count from the end; take / stop before the end; clamped), counted in characters, never bytes"
-    substr_abstract_harness!(k_c16_substr_abstract_3_len1_pn, true, 1, 2);
-    //@ob name=C16.substr.abstract.3.len1.np harness=k_c16_substr_abstract_3_len1_np props=C16,C01 tier=off strength=bounded bound="a string of 1 characters (abstract: Chars by contract, real Skip/Take/collect); start/length: start < 0, length >= 0 (all 64-bit values of that sign)" fns=op::string::substr stubs=5 timeout=600 group=heavy
-    //@ desc="substr on a 1-character string, for every 64-bit start and length in the stated sign class: the result is exactly the characters the statement describes (skip / count from the end; take / stop before the end; clamped), counted in characters, never bytes"
-    substr_abstract_harness!(k_c16_substr_abstract_3_len1_np, true, 1, 3);
-    //@ob name=C16.substr.abstract.3.len1.nn harness=k_c16_substr_abstract_3_len1_nn props=C16,C01 tier=thorough strength=bounded bound="a string of 1 characters (abstract: Chars by contract, real Skip/Take/collect); start/length: start < 0, length < 0 (all 64-bit values of that sign)" fns=op::string::substr stubs=5 timeout=600 group=heavy
-    //@ desc="substr on a 1-character string, for every 64-bit start and length in the stated sign class: the result is exactly the characters the statement describes (skip / count from the end; take / stop before the end; clamped), counted in characters, never bytes"
-    substr_abstract_harness!(k_c16_substr_abstract_3_len1_nn, true, 1, 4);
-    //@ob name=C16.substr.abstract.3.len2.pp harness=k_c16_substr_abstract_3_len2_pp props=C16,C01 tier=off strength=bounded bound="a string of 2 characters (abstract: Chars by contract, real Skip/Take/collect); start/length: start >= 0, length >= 0 (all 64-bit values of that sign)" fns=op::string::substr stubs=5 timeout=600 group=heavy
+    substr_abstract_harness!(k_c16_substr_abstract_3_len1_all, true, 1, 0);
+    //@ob name=C16.substr.abstract.3.len2.all harness=k_c16_substr_abstract_3_len2_all props=C16,C01 tier=quick strength=bounded bound="a string of 2 characters (abstract: Chars by contract, real Skip/Take/collect); start/length: EVERY i64 (all 64-bit values of that sign)" fns=op::string::substr stubs=6 timeout=600 group=heavy
     //@ desc="substr on a 2-character string, for every 64-bit start and length in the stated sign class: the result is exactly the characters the statement describes (skip / count from the end; take / stop before the end; clamped), counted in characters, never bytes"
-    substr_abstract_harness!(k_c16_substr_abstract_3_len2_pp, true, 2, 1);
-    //@ob name=C16.substr.abstract.3.len2.pn harness=k_c16_substr_abstract_3_len2_pn props=C16,C01 tier=off strength=bounded bound="a string of 2 characters (abstract: Chars by contract, real Skip/Take/collect); start/length: start >= 0, length < 0 (all 64-bit values of that sign)" fns=op::string::substr stubs=5 timeout=600 group=heavy
-    //@ desc="substr on a 2-character string, for every 64-bit start and length in the stated sign class: the result is exactly the characters the statement describes (skip / count from the end; take / stop before the end; clamped), counted in characters, never bytes"
-    substr_abstract_harness!(k_c16_substr_abstract_3_len2_pn, true, 2, 2);
-    //@ob name=C16.substr.abstract.3.len2.np harness=k_c16_substr_abstract_3_len2_np props=C16,C01 tier=off strength=bounded bound="a string of 2 characters (abstract: Chars by contract, real Skip/Take/collect); start/length: start < 0, length >= 0 (all 64-bit values of that sign)" fns=op::string::substr stubs=5 timeout=600 group=heavy
-    //@ desc="substr on a 2-character string, for every 64-bit start and length in the stated sign class: the result is exactly the characters the statement describes (skip / count from the end; take / stop before the end; clamped), counted in characters, never bytes"
-    substr_abstract_harness!(k_c16_substr_abstract_3_len2_np, true, 2, 3);
-    //@ob name=C16.substr.abstract.3.len2.nn harness=k_c16_substr_abstract_3_len2_nn props=C16,C01 tier=off strength=bounded bound="a string of 2 characters (abstract: Chars by contract, real Skip/Take/collect); start/length: start < 0, length < 0 (all 64-bit values of that sign)" fns=op::string::substr stubs=5 timeout=600 group=heavy
-    //@ desc="substr on a 2-character string, for every 64-bit start and length in the stated sign class: the result is exactly the characters the statement describes (skip / count from the end; take / stop before the end; clamped), counted in characters, never bytes"
-    substr_abstract_harness!(k_c16_substr_abstract_3_len2_nn, true, 2, 4);
-    //@ob name=C16.substr.abstract.3.len3.pp harness=k_c16_substr_abstract_3_len3_pp props=C16,C01 tier=off strength=bounded bound="a string of 3 characters (abstract: Chars by contract, real Skip/Take/collect); start/length: start >= 0, length >= 0 (all 64-bit values of that sign)" fns=op::string::substr stubs=5 timeout=600 group=heavy
+    substr_abstract_harness!(k_c16_substr_abstract_3_len2_all, true, 2, 0);
+    //@ob name=C16.substr.abstract.3.len3.all harness=k_c16_substr_abstract_3_len3_all props=C16,C01 tier=quick strength=bounded bound="a string of 3 characters (abstract: Chars by contract, real Skip/Take/collect); start/length: EVERY i64 (all 64-bit values of that sign)" fns=op::string::substr stubs=6 timeout=600 group=heavy
     //@ desc="substr on a 3-character string, for every 64-bit start and length in the stated sign class: the result is exactly the characters the statement describes (skip / count from the end; take / stop before the end; clamped), counted in characters, never bytes"
-    substr_abstract_harness!(k_c16_substr_abstract_3_len3_pp, true, 3, 1);
-    //@ob name=C16.substr.abstract.3.len3.pn harness=k_c16_substr_abstract_3_len3_pn props=C16,C01 tier=off strength=bounded bound="a string of 3 characters (abstract: Chars by contract, real Skip/Take/collect); start/length: start >= 0, length < 0 (all 64-bit values of that sign)" fns=op::string::substr stubs=5 timeout=600 group=heavy
-    //@ desc="substr on a 3-character string, for every 64-bit start and length in the stated sign class: the result is exactly the characters the statement describes (skip / count from the end; take / stop before the end; clamped), counted in characters, never bytes"
-    substr_abstract_harness!(k_c16_substr_abstract_3_len3_pn, true, 3, 2);
-    //@ob name=C16.substr.abstract.3.len3.np harness=k_c16_substr_abstract_3_len3_np props=C16,C01 tier=off strength=bounded bound="a string of 3 characters (abstract: Chars by contract, real Skip/Take/collect); start/length: start < 0, length >= 0 (all 64-bit values of that sign)" fns=op::string::substr stubs=5 timeout=600 group=heavy
-    //@ desc="substr on a 3-character string, for every 64-bit start and length in the stated sign class: the result is exactly the characters the statement describes (skip / count from the end; take / stop before the end; clamped), counted in characters, never bytes"
-    substr_abstract_harness!(k_c16_substr_abstract_3_len3_np, true, 3, 3);
-    //@ob name=C16.substr.abstract.3.len3.nn harness=k_c16_substr_abstract_3_len3_nn props=C16,C01 tier=off strength=bounded bound="a string of 3 characters (abstract: Chars by contract, real Skip/Take/collect); start/length: start < 0, length < 0 (all 64-bit values of that sign)" fns=op::string::substr stubs=5 timeout=600 group=heavy
-    //@ desc="substr on a 3-character string, for every 64-bit start and length in the stated sign class: the result is exactly the characters the statement describes (skip / count from the end; take / stop before the end; clamped), counted in characters, never bytes"
-    substr_abstract_harness!(k_c16_substr_abstract_3_len3_nn, true, 3, 4);
+    substr_abstract_harness!(k_c16_substr_abstract_3_len3_all, true, 3, 0);
 //@END-GENERATED-SUBSTR
 
     // =====================================================================================
